@@ -38,8 +38,8 @@ def _related_logs(inp, nl, nf):
 
 
 @obligation('PG', props=('C05',), quick=[dict(nl=3, nf=3, batch=b) for b in (2, 100)] + [dict(nl=4, nf=2, batch=2), dict(nl=4, nf=4, batch=2), dict(nl=3, nf=4, batch=2)],
-            thorough=[dict(nl=nl, nf=nf, batch=b) for nl in (2, 3, 4, 5) for nf in (1, 2, 3, 4, 5) for b in (2, 100)], stubs=_STUBS,
-            bounds='leader log <=5, follower log <=5 entries (index 1 common), related by Log Matching with any agreement length, any nextIndex, follower term <= leader term, 2 entries or all entries per message (a single 1-byte entry per message would take the chunked path, which is the subject of A3); stable connection, no other event')
+            thorough=[dict(nl=nl, nf=nf, batch=b) for nl in (2, 3, 4, 5, 6, 7, 8) for nf in (1, 2, 3, 4, 5, 6, 7, 8) for b in (2, 3, 100)], stubs=_STUBS,
+            bounds='leader log <=5 (thorough 8), follower log <=5 (thorough 8) entries (index 1 common), related by Log Matching with any agreement length, any nextIndex, follower term <= leader term, 2 entries or all entries per message (a single 1-byte entry per message would take the chunked path, which is the subject of A3); stable connection, no other event')
 def PG(inp, nl, nf, batch):
     """catch-up: one round (real __sendAppendEntries -> follower handles every message in order -> leader handles every reply
     in order) either leaves the follower fully matched (same log, matchIndex = leader's last index) or strictly decreases
@@ -88,7 +88,7 @@ def PG(inp, nl, nf, batch):
                vars=dict(nmsgs=len(msgs)))
 
 
-@obligation('RL2', props=('C04', 'C01'), quick=[dict(nl=3), dict(nl=4)], thorough=[dict(nl=3), dict(nl=4), dict(nl=5)], stubs=_STUBS,
+@obligation('RL2', props=('C04', 'C01'), quick=[dict(nl=3), dict(nl=4)], thorough=[dict(nl=3), dict(nl=4), dict(nl=5), dict(nl=6)], stubs=_STUBS,
             bounds='N=2; leader log <=5 entries; follower fully matched and acknowledged; one stale batch sequence produced by the real sender from any earlier nextIndex still in flight; any FIFO prefix of it delivered; then acknowledgements delivered and a leader tick')
 def RL2(inp, nl):
     """acknowledgement soundness with stale messages: a follower that matched and acknowledged the whole log, then receives any
@@ -134,13 +134,13 @@ def RL2(inp, nl):
     return Res(cl, nontrivial=c1 > ci, obs=lambda: dict(nl=nl, delivered=k, inflight=len(inflight), commit=show(c1), flast=show(flog[-1][1]), exc=show(exc)))
 
 
-@obligation('EL', props=('C03',), quick=[dict(N=3, k=2)], thorough=[dict(N=3, k=3), dict(N=4, k=3)], stubs=_STUBS,
-            bounds='N=3..4 real nodes of one common term in arbitrary roles consistent with the ghost relation "grants of this term"; <=3 deliveries of in-flight grants')
+@obligation('EL', props=('C03',), quick=[dict(N=3, k=2)], thorough=[dict(N=3, k=3), dict(N=4, k=3), dict(N=5, k=3)], stubs=_STUBS,
+            bounds='N=3..5 real nodes of one common term in arbitrary roles consistent with the ghost relation "grants of this term"; <=3 deliveries of in-flight grants')
 def EL(inp, N, k):
     """one leader per term, relationally: N real nodes of a common term whose self-votes, recorded votes and in-flight
     response_vote messages are consistent with every voter having granted at most once; after any <=k deliveries never two
     nodes are leader in that term."""
-    ids = 'abcd'[:N]
+    ids = 'abcde'[:N]
     now = inp.real('now', 0)
     clock = so.Clock(now)
     objs, trs = {}, {}
@@ -201,7 +201,7 @@ def EL(inp, N, k):
     return Res(cl, nontrivial=len(leaders) == 1 and len(order) > 0, obs=lambda: dict(N=N, roles=roles, voted=voted, delivered=order, leaders=leaders, exc=show(exc)))
 
 
-@obligation('CM', props=('C04', 'C01'), quick=[dict(nl=3), dict(nl=4)], thorough=[dict(nl=3), dict(nl=4), dict(nl=5)], stubs=_STUBS,
+@obligation('CM', props=('C04', 'C01'), quick=[dict(nl=3), dict(nl=4)], thorough=[dict(nl=3), dict(nl=4), dict(nl=5), dict(nl=6)], stubs=_STUBS,
             bounds='three real nodes: leader log <=5 entries, two followers with logs of the same length bound related to the leader log by Log Matching with any agreement lengths; matchIndex of each follower any value not above its agreement length (RL2); one leader tick')
 def CM(inp, nl):
     """commit-time majority (the property's own sentence): at the very step the leader's commit index advances to c, the
